@@ -51,7 +51,10 @@ def ob_lemma_detection_rule(vc):
     a.check_received(o_sender, o_mc, of, os_)
     r = a.check_received(sender, multicast, f2, s2)
     expected = f2 and ((not f1) or s2 <= s1)
-    vc.check_eq(r, expected, "detection.exactly_the_rule_despite_interleaving")
+    # (a native run exercises the real check_received: the region of known finding D11 gets
+    # its own obligation name, as in the refinement obligation)
+    region = "@prev_session_id_0" if (f1 and f2 and s1 == 0) else ""
+    vc.check_eq(r, expected, "detection.exactly_the_rule_despite_interleaving" + region)
     # flag going from set to clear (wrap-around) never detects
     if not f2:
         vc.cover("flag-cleared")
